@@ -428,6 +428,43 @@ def gen_update_exiting(g: Gen, c: Contract):
             'new_region_name': 'n' if r.random() < 0.9 else r.choice(UNIVERSE)}
 
 
+def gen_region_field(g: Gen, c: Contract):
+    r = g.rng
+    blk = g.bb.RegionBlock(name=g.name(), _jump_targets=tuple(g.names(0, 2)), backedges=(), kind=r.choice(['loop', 'branch', 'meta']),
+                           header=g.name(), subregion=None, exiting=g.name(), parent_region=None)
+    pn = [k for k in c.params if k != 'self'][0]
+    return {'self': blk, pn: g.name(extra=['n'])}
+
+
+def gen_extract_region(g: Gen, c: Contract):
+    """a top-level graph, some of whose blocks are regions (with exiting chains that mirror their targets), and a subset with
+    one header and one exiting block (several subsets are tried); the parent is a meta region naming some block"""
+    r = g.rng
+    scfg = g.scfg(with_be=0.05, ext=0.5)
+    for k in list(scfg.graph):
+        b = scfg.graph[k]
+        if not isinstance(b, g.bb.SyntheticBranch) and not b.backedges and r.random() < 0.35:
+            hdr = r.choice(list(b._jump_targets)) if b._jump_targets and r.random() < 0.8 else None
+            scfg.graph[k] = region_chain(g, list(b._jump_targets), r.choice([1, 1, 2]), name=k, header=hdr)
+    keys = list(scfg.graph)
+    sub = set(r.sample(keys, r.randint(1, min(3, len(keys)))))
+    for _ in range(30):
+        cand = set(r.sample(keys, r.randint(1, min(3, len(keys)))))
+        try:
+            hs, _es = scfg.find_headers_and_entries(cand)
+            xs, _ = scfg.find_exiting_and_exits(cand)
+        except Exception:
+            continue
+        if len(hs) == 1 and len(xs) == 1:
+            sub = cand
+            break
+    names = sorted(sub) + keys
+    parent = g.bb.RegionBlock(name='meta_region_0', _jump_targets=(), backedges=(), kind='meta', header=r.choice(names),
+                              subregion=None, exiting=r.choice(names), parent_region=None)
+    return {'scfg': scfg, 'region_blocks': sub, 'region_kind': r.choice(['loop', 'head', 'branch', 'tail', 'meta']),
+            'parent_region': parent}
+
+
 def gen_iter_scfg(g: Gen, c: Contract):
     """a level with (mostly) a unique head, some of whose blocks are regions with fully iterable, uniquely named sub-graphs"""
     r = g.rng
@@ -463,7 +500,7 @@ def gen_scfg_only(g: Gen, c: Contract):
     return {'scfg': g.scfg(with_be=0.15, ext=0.4)}
 
 
-GENERATORS = {'iter_scfg': gen_iter_scfg, 'sync_exiting': gen_sync_exiting, 'update_exiting': gen_update_exiting, 'head_blocks': gen_head_blocks, 'branch_regions': gen_branch_regions, 'view': gen_view, 'scfg_only': gen_scfg_only, 'dom_tables': gen_dom_tables, 'stream': gen_stream, 'flowinfo': gen_flowinfo, 'block_bcmap': gen_block_bcmap, 'namegen': gen_namegen, 'insert_ctrl': gen_insert_ctrl, 'tails_exits': gen_tails_exits, 'graph_and_pair': gen_graph_and_pair, 'graph_and_subset': gen_graph_and_subset, 'insert': gen_insert, 'branch_replace': gen_branch_replace}
+GENERATORS = {'extract_region': gen_extract_region, 'region_field': gen_region_field, 'iter_scfg': gen_iter_scfg, 'sync_exiting': gen_sync_exiting, 'update_exiting': gen_update_exiting, 'head_blocks': gen_head_blocks, 'branch_regions': gen_branch_regions, 'view': gen_view, 'scfg_only': gen_scfg_only, 'dom_tables': gen_dom_tables, 'stream': gen_stream, 'flowinfo': gen_flowinfo, 'block_bcmap': gen_block_bcmap, 'namegen': gen_namegen, 'insert_ctrl': gen_insert_ctrl, 'tails_exits': gen_tails_exits, 'graph_and_pair': gen_graph_and_pair, 'graph_and_subset': gen_graph_and_subset, 'insert': gen_insert, 'branch_replace': gen_branch_replace}
 
 
 def gen_args(g: Gen, c: Contract):
@@ -472,10 +509,12 @@ def gen_args(g: Gen, c: Contract):
     return {n: g.value(S.parse_type(t), c) for n, t in c.params.items()}
 
 
-def snapshot(v):
+def snapshot(v, top=True):
     """pre-state copy for `old`: blocks are frozen values, so a graph is copied level-locally (same block objects, hence the
     same sub-graph objects inside region blocks: a region is compared by the identity of its sub-graph, as in value mode;
     what happens inside sub-graphs is the hierarchy clause's business)"""
+    if top and type(v).__name__ == 'RegionBlock':
+        return copy.copy(v)       # a region block passed as an argument may be written in place (replace_header / replace_exiting)
     if type(v).__name__ == 'SCFG':
         from numba_scfg.core.datastructures.scfg import SCFG, NameGenerator
         c = SCFG(dict(v.graph), name_gen=NameGenerator(kinds=dict(v.name_gen.kinds)))
@@ -486,9 +525,9 @@ def snapshot(v):
     if type(v).__name__ == 'ConcealedRegionView':
         return snapshot(v.scfg).concealed_region_view
     if isinstance(v, list):
-        return [snapshot(x) for x in v]
+        return [snapshot(x, False) for x in v]
     if isinstance(v, tuple):
-        return tuple(snapshot(x) for x in v)
+        return tuple(snapshot(x, False) for x in v)
     if isinstance(v, (set, frozenset)):
         return set(v)
     if type(v).__name__ == 'defaultdict':
@@ -497,7 +536,7 @@ def snapshot(v):
             d[k] = set(x) if isinstance(x, set) else copy.copy(x)
         return d
     if isinstance(v, dict):
-        return {k: snapshot(x) for k, x in v.items()}
+        return {k: snapshot(x, False) for k, x in v.items()}
     if type(v).__name__ in ('NameGenerator', 'FlowInfo'):
         return copy.deepcopy(v)
     return v
@@ -633,7 +672,7 @@ def heap_namespace(args):
         'same_graph': lambda sg: dict(sg.graph) == at_entry[id(sg)],
         'sub_depth': lambda sg: depth.get(id(sg), 0),
         'chain_root': lambda sg: root.get(id(sg), id(sg)),
-        'nesting_wf': lambda: not depth.get('$shared'),
+        'nesting_wf': lambda *a: not depth.get('$shared'),
         'heap_unchanged': lambda: all(dict(sg.graph) == at_entry[id(sg)] for sg in subs),
         'fact': lambda *a: True,
     }
